@@ -71,7 +71,7 @@ func (cl *Cluster) drawKnobs(p profile) {
 		w := []int{1, 2, 3, 5, 5, 4, 3, 2, 1, 1}[:maxVal]
 		return int64(1 + c.PickW("validators", w))
 	})
-	k.weightMode = K("weight_mode", ri("weight_mode", 0, 5))
+	k.weightMode = K("weight_mode", ri("weight_mode", 0, 6))
 	k.weights = make([]uint64, k.nVal)
 	for i := 0; i < k.nVal; i++ {
 		i := i
@@ -90,6 +90,11 @@ func (cl *Cluster) drawKnobs(p profile) {
 			case 3: // first validator just below two thirds
 				if i == 0 && n >= 2 {
 					return 2*(n-1) - 1
+				}
+				return 1
+			case 6: // first validator holds just over two thirds: all the others together stay below one third
+				if i == 0 && n >= 3 {
+					return 2*(n-1) + 1
 				}
 				return 1
 			case 4: // total close to the maximum 2^31-1
@@ -125,6 +130,19 @@ func (cl *Cluster) drawKnobs(p profile) {
 	var tot, cw uint64
 	for _, w := range k.weights {
 		tot += w
+	}
+	if k.weightMode == 6 && k.nVal >= 3 && p.forks > 0 && K("all_light_validators_cheat", func() int64 {
+		if c.Chance("all_light_cheat", 500) {
+			return 1
+		}
+		return 0
+	}) == 1 {
+		// many forkers, little weight: more than a third of the validators by count, less than a third by weight
+		wantCheaters = 0
+		for id := 2; id <= k.nVal; id++ {
+			k.cheaters[uint32(id)] = true
+			cw += k.weights[id-1]
+		}
 	}
 	for j := 0; j < wantCheaters; j++ {
 		id := uint32(K(fmt.Sprintf("cheater%d", j), func() int64 {
